@@ -8,6 +8,25 @@ UNIT = dict(
         env_methods=["join_next", "shutdown", "close"],
         pre_subst=[('Ok("action") =>', "Ok(task) if task.is_action() =>")],
     ),
+    structural=[
+        # the wiring of the five workers: one event queue (ev_s -> ev_r), one error channel (er_s -> er_r), the shared configuration
+        dict(id="C01+C08+C15.structure.action_worker_reads_the_one_event_queue", file=F, impl="impl Watchexec", count_in_fn="with_config",
+             pattern='tasks.spawn(action::worker(config.clone(), er_s.clone(), ev_r).map_ok(|()| "action"));', expect=1,
+             why="the action worker consumes the receiving end of the queue every source sends to, reports to the one error channel, and is the task named \"action\" whose end stops the main task"),
+        dict(id="C01+C13+C15.structure.fs_worker_is_wired_to_the_event_queue_and_the_error_channel", file=F, impl="impl Watchexec", count_in_fn="with_config",
+             pattern='tasks.spawn(fs::worker(config.clone(), er_s.clone(), ev_s.clone()).map_ok(|()| "fs"));', expect=1, why="see above"),
+        dict(id="C01+C15.structure.signal_worker_is_wired_to_the_event_queue_and_the_error_channel", file=F, impl="impl Watchexec", count_in_fn="with_config",
+             pattern='signal::worker(config.clone(), er_s.clone(), ev_s.clone()).map_ok(|()| "signal"),', expect=1, why="see above"),
+        dict(id="C01+C13+C15.structure.keyboard_worker_is_wired_to_the_event_queue_and_the_error_channel", file=F, impl="impl Watchexec", count_in_fn="with_config",
+             pattern='keyboard::worker(config.clone(), er_s.clone(), ev_s.clone()) .map_ok(|()| "keyboard"),', expect=1, why="see above"),
+        dict(id="C15.structure.error_hook_reads_the_one_error_channel_with_the_configured_handler_cell", file=F, impl="impl Watchexec", count_in_fn="with_config",
+             pattern='tasks.spawn(error_hook(er_r, config.error_handler.clone()).map_ok(|()| "error"));', expect=1,
+             why="every worker's errors reach the error hook, which calls the configuration's handler cell (a clone of a cell is that cell: unit cfgwatch)"),
+        dict(id="C01+C15.structure.one_event_queue_and_one_error_channel", file=F, impl="impl Watchexec", count_in_fn="with_config", token_regex=r"bounded|channel", expect=2,
+             why="exactly one priority::bounded(..) and one mpsc::channel(..) are created"),
+        dict(id="C01.structure.send_event_feeds_that_queue", file=F, impl="impl Watchexec", count_in_fn="with_config", pattern="let event_input = ev_s.clone();", expect=1,
+             why="Watchexec::send_event (proved in unit sources) sends to a clone of the same sender"),
+    ],
     extract=[
         dict(id="main_loop", kind="block", src=F, within="with_config", stmts_from="while let Some(Ok(res)) = tasks.join_next().await", stmts_to="});", stmts_to_exact=True,
              free=["tasks", "ev_s"]),
